@@ -16,6 +16,16 @@ CHECKS = {
         technique="Hypothesis: payload x offset x chunking x block size x backend x throttle x network tape, real aioftp.Client against the real server on a simulated network; oracle = byte model",
         text="Generated operation lists (STOR/APPE/RETR whole and at restart offsets inside, at and beyond the end) with block-boundary sizes and adversarial byte patterns are driven through the real client; after every completion reply the backend bytes (read directly), stat and MLSD sizes and a whole download seen by a second session must equal a dict-of-bytes model; downloads are compared byte for byte.",
         note="Trusted: simnet; byte model (20 lines). Mutants caught: missing seek in retr_worker, 'wb' with a restart offset, dropping the last byte of full blocks, iterator stopping on a CR/LF block."),
+    "C07": dict(
+        category="exploration", design_ref="3/C07",
+        technique="Hypothesis on format-then-parse of ls dates over the (mtime, now, time zone) plane; generated directories listed end to end through the real client on simnet; oracle = backend truth + precision rule",
+        text="Plane: real Server.build_list_mtime -> real Client.parse_ls_date for generated (now, mtime, lag) in 4 process time zones, expected localtime(mtime) to the minute inside the last half year and to the day otherwise (the one-day window at the boundary is excluded, as the property says). End to end: generated directories (names with metacharacters, sizes to 2^40, controlled mtimes via a virtual wall clock injected into server, backend and client) listed with MLSD, LIST, MLST-stat and against a LIST-only server; names as multiset, type, size, MLSx modify in UTC seconds, LIST time per the precision rule.",
+        note="Virtual wall clock: module attribute shims (aioftp.server.time, aioftp.pathio.time, aioftp.client.datetime) in the harness, no repository change. Known finding F12 (leading-whitespace names through LIST) is recorded in KNOWN_FINDINGS and its class is suppressed by signature. Mutants caught: half-year test shifted by 5 days, client year inference shifted, MLSx time via localtime, size modulo 2^32."),
+    "C14": dict(
+        category="fault_enumeration", design_ref="3/C14",
+        technique="enumeration of ABOR positions (virtual-time grid over every block of every transfer kind, iteration-indexed sweep of the ABOR arrival, no-transfer case) x data-connection timing x follow-up, plus Hypothesis-sampled times/tapes, on a simulated network; oracle = allowed reply sequences + prefix + follow-up",
+        text="For RETR/STOR/APPE/LIST/MLSD, sizes around block multiples and data connection made before / late / never, the ABOR is sent 0.5 s before the command, pipelined in the same segment, 0.5 ms after it and then every 0.5 virtual seconds until after the completion reply (the backend awaits 1 s per block, so every block boundary is hit), and at every loop iteration 0..N after the command on a zero-delay backend. The control channel must then carry exactly one of the allowed reply sequences, the session must stay open, the server must close the transfer's data connection, received/stored bytes must be a prefix, and each of five follow-ups must behave normally.",
+        note="Exhaustive relative to the grid only. A data connection the client opens after sending ABOR is a new unused connection and is not judged. Found and fixed two defects (F1, F13). Mutants caught: worker not sending 426; abor() cancelling and answering 226 itself."),
     "C08": dict(
         category="exploration", design_ref="3/C08",
         technique="Hypothesis names biased to protocol metacharacters through every path-taking client method on a simulated network; oracle = backend tree identity",
